@@ -45,5 +45,7 @@ fixed('C20', '53ab6ef', 'edit_rules counted a context segment X1 as length 1 alt
 fixed('C17', '9b62e8e', "prince_ling -o FILE aborted in the middle of the list (UnicodeEncodeError from the codec writer) when a capitalised word is not representable in the encoding of the ruleset; stdout went on, so the file was not the list written to stdout", {'ruleset': 'encoding cp1251 / latin-1, alpha word with the micro sign or y-diaeresis, a mask with U at that position', 'cmd': 'prince_ling.py -r R -o FILE'}, 'F-C17b')
 fixed('C07', '764867c', "the guesser opened Omen/omen_keyspace.txt in the locale's default encoding although the trainer writes it in the encoding of the ruleset: for a ruleset declared UTF-8-SIG (what the trainer detects for a training list that starts with a byte order mark) the first line starts with U+FEFF, int() raised and pcfg_guesser.py could not load the ruleset at all", {'training': 'trainer.py -t <list starting with EF BB BF> (no -e), or -e utf-8-sig', 'cmd': 'pcfg_guesser.py -r <that ruleset>'}, 'F-C07c')
 
+fixed('C09', '4a2c1bd', "pcfg_guesser.py --load --limit N on a session that was quit inside a Markov (OMEN) level wrote the whole remainder of the level before it started to count: restore_omen() was not given the limit, so the run wrote more than N lines", {'history': 'q after the j-th guess of a Markov level, then --load --limit N with N smaller than the remainder of the level'}, 'F-C09c')
+
 json.dump(F, open('/verif/known_findings.json', 'w'), indent=1)
 print(len(F), 'entries')
